@@ -167,6 +167,13 @@ class Intervals:
                     return (k, min(v[1] for v in vals), min(v[2] for v in vals), ex)
                 return TOP
             if d == "int" and len(e.args) == 1:
+                a0 = e.args[0]
+                if isinstance(a0, ast.BoolOp) and isinstance(a0.op, ast.Or):
+                    a0 = a0.values[0]
+                if isinstance(a0, ast.Subscript) and isinstance(a0.slice, ast.Slice):
+                    # int(<slice of the input text>): any integer the input cares to spell, negative ones included.
+                    # This is *known* to be unbounded (exact), not merely unknown: a cursor moved by it can go backwards.
+                    return ("abs", -INF, INF, True)
                 return self.ev(e.args[0], env) if isinstance(e.args[0], (ast.Name, ast.BinOp)) else TOP
             if d in ("struct.unpack", "struct.unpack_from") and e.args and isinstance(e.args[0], ast.Constant):
                 return ("tuple", struct_ranges(str(e.args[0].value)))
@@ -442,6 +449,7 @@ class LoopAnalysis:
         iv = Intervals(cur, self.resolver)
         env = {cur: _rel(0, 0)}
         shifted = False
+        signed_input: set[str] = set()  # names moved by an integer spelled in the input (may be negative): known, not unknown
         for nid, lab in path:
             nd = self.cfg.nodes[nid]
             st = nd.ast
@@ -463,11 +471,18 @@ class LoopAnalysis:
                 v = iv.ev(st.value, env)
                 for t in st.targets:
                     self._bind(t, v, env)
+                    if isinstance(t, ast.Name):
+                        if {x.id for x in ast.walk(st.value) if isinstance(x, ast.Name)} & signed_input or v == ("abs", -INF, INF, True):
+                            signed_input.add(t.id)
+                        else:
+                            signed_input.discard(t.id)
             elif isinstance(st, ast.AnnAssign) and st.value is not None:
                 self._bind(st.target, iv.ev(st.value, env), env)
             elif isinstance(st, ast.AugAssign) and isinstance(st.target, ast.Name):
                 old = env.get(st.target.id, TOP)
                 v = iv.ev(st.value, env)
+                if v == ("abs", -INF, INF, True) and isinstance(st.op, (ast.Add, ast.Sub)):
+                    signed_input.add(st.target.id)
                 if isinstance(st.op, ast.Add):
                     env[st.target.id] = _add(old, v) if old[0] in ("abs", "rel") and v[0] in ("abs", "rel") else TOP
                 elif isinstance(st.op, ast.Sub):
@@ -477,6 +492,8 @@ class LoopAnalysis:
                 else:
                     env[st.target.id] = TOP
         val = env.get(cur, TOP)
+        if cur in signed_input:
+            return (-INF, INF, True, False)
         if shifted:
             return (0, 0, True, True)
         if val[0] == "rel":
